@@ -265,6 +265,17 @@ Proof.
     intros i Hi. apply Nat.eqb_eq. apply H; try assumption. apply bit_range_In. assumption.
 Qed.
 
+Lemma inout_used_spec : forall refs ws,
+  inout_used_b refs ws = true <->
+  (forall w, In w ws -> is_inout w = true -> forall i, 0 <= i < w_width w -> In (BW (w_name w) i) refs).
+Proof.
+  intros refs ws. unfold inout_used_b. rewrite forallb_forall. split.
+  - intros H w Hw Hio i Hi. specialize (H w Hw). rewrite Hio in H. rewrite forallb_forall in H.
+    apply (memb_spec sbit_eqb sbit_eqb_spec). apply H. apply bit_range_In. assumption.
+  - intros H w Hw. destruct (is_inout w) eqn:E; [|reflexivity]. rewrite forallb_forall.
+    intros i Hi. apply (memb_spec sbit_eqb sbit_eqb_spec). apply H; try assumption. apply bit_range_In. assumption.
+Qed.
+
 (* ------------------------------------------------------------------ modules *)
 Theorem wf_module_spec : forall ex d m, wf_module ex d m = true <-> WfModule ex d m.
 Proof.
@@ -273,7 +284,7 @@ Proof.
   rewrite (nodupb_spec String.eqb String.eqb_eq), (nodupb_spec Z.eqb Z.eqb_eq).
   rewrite one_driver_spec, inputs_free_spec, !forallb_forall.
   split.
-  - intros [H1 [H2 [H3 [H4 [H5 [H6 [H7 [H8 [H9 [H10 [H11 [H12 _]]]]]]]]]]]].
+  - intros [H1 [H2 [H3 [H4 [H5 [H6 [H7 [H8 [H9 [H10 [H11 [H12 [H13 _]]]]]]]]]]]]].
     constructor; try assumption.
     + intros w Hw. specialize (H2 w Hw). lia.
     + intros x Hx. specialize (H3 x Hx). lia.
@@ -285,7 +296,10 @@ Proof.
       apply pair_ok_spec. apply H9. assumption.
     + intros p Hp sp Hsp. specialize (H10 p Hp). rewrite forallb_forall in H10.
       apply switch_ok_spec. apply H10. assumption.
-  - intros [W1 W2 W3 W4 W5 W6 W7 W8 W9 W10 W11 W12].
+    + intro Ht. rewrite Ht in H13. apply inout_used_spec. assumption.
+  - intros [W1 W2 W3 W4 W5 W6 W7 W8 W9 W10 W11 W12 W13].
+    assert (G13 : (if is_top m then true else inout_used_b (mod_refs m) (mod_wires m)) = true).
+    { destruct (is_top m) eqn:Ht; [reflexivity|]. apply inout_used_spec. apply W13. reflexivity. }
     repeat split; try assumption.
     + intros w Hw. specialize (W2 w Hw). lia.
     + intros x Hx. specialize (W3 x Hx). lia.
